@@ -12,7 +12,11 @@
   description; set / start / stop requests: ACK 0), stay silent, answer with a well-formed frame
   of another kind, answer with a frame of the right kind whose payload is too short to unpack
   (CPython raises `struct.error`), answer with an ACK frame carrying a non-zero code (NACK),
-  answer with bytes without a start byte (`noise`: dropped, like silence), or answer with
+  answer with bytes without a start byte (`noise`: dropped, like silence), answer with a well-formed
+  STREAM frame (`wrongStream`: the receive thread puts it on the stream queue, so the call waiting on
+  the response queue times out exactly as on a silent link; the draining loops take queued frames
+  without waiting), answer a channel-info request with a name that is not UTF-8 (`badName`:
+  `UnicodeDecodeError` out of the decoder), or answer with
   `garbage`: bytes that contain a decodable header announcing a long frame (the reference
   device's blob `13 37 55 01 ff 00 55`: header `55 01 ff 00` = 65281 bytes, id 0) — the receive
   path then takes everything the device sends afterwards for the body of that frame, i.e. the
@@ -33,6 +37,8 @@ open Gen.Comm
 
 inductive Resp where
   | ok | silent | wrong | short | garbage | nack | noise
+  | wrongStream               -- a well-formed STREAM frame: it goes to the stream queue, the waiting call sees nothing
+  | badName                   -- channel-info whose name field is not UTF-8 (any other request: answered correctly)
   | swallowed (r : Resp)      -- the device does `r`, but nothing gets through the poisoned reassembly buffer
   deriving DecidableEq, Repr
 
@@ -98,6 +104,11 @@ def request (s : St) (r : Req) (timeout : Nat) : Got × St :=
   | .ok => (.answer, s)
   | .silent => (.nothing, { s with time := s.time + timeout })
   | .wrong => (.nothing, s)
+  | .wrongStream => (.nothing, { s with time := s.time + timeout })
+  | .badName =>
+    match r with
+    | .chinfo _ => (.raise .unicodeError, s)     -- `_str.decode()` in `frame_chinfo_decode`
+    | _ => (.answer, s)
   | .short => (.raise .structError, s)
   | .nack => (.nothing, { s with time := s.time + timeout })
   | .noise => (.nothing, { s with time := s.time + timeout })
@@ -222,6 +233,8 @@ def ackReq (x : Sess) (r : Sent) (timeout : Nat) : AckRes × Sess :=
     | .noise => (.fail, { x with st := { st with time := st.time + timeout } })
     | .swallowed _ => (.fail, { x with st := { st with time := st.time + timeout } })
     | .garbage => (.fail, { x with st := st.poison (st.time + timeout) })
+    | .wrongStream => (.fail, { x with st := { st with time := st.time + timeout } })  -- lands in the stream queue
+    | .badName => (.ok, { x with st := st })             -- no name in an ACK: answered correctly
     | .nack => (.fail, { x with st := st })              -- ACK frame with a non-zero code
     | .wrong => (.fail, { x with st := st })             -- some other frame: `frame_ack_decode` → None
     | .short => (.raise .structError, { x with st := st }) -- ACK frame of the wrong size (outside the fault classes)
